@@ -12,6 +12,9 @@ UsesOf(n) == {<<>>} \cup {<<u>> : u \in UseSet(n)}
              \* always: two DIFFERENT fields by name, in both orders (a scan that stops at the first placeholder whose
              \* field is not generic loses the bound of a later one)
              \cup {p \in {<<u, v>> : u \in UseSet(n), v \in UseSet(n)} : p[1].how = "name" /\ p[2].how = "name" /\ p[1].f # p[2].f}
+             \* always: ONE field twice in a row under two different traits (`{a} ({a:?})`): both bounds are needed
+             \cup {p \in {<<u, v>> : u \in UseSet(n), v \in UseSet(n)} :
+                      p[1].f = p[2].f /\ p[1].how = "name" /\ p[2].how = "name" /\ p[1].tr # p[2].tr}
              \* always: a field passed POSITIONALLY next to a named argument of the same name that stands for the other field
              \* (`"{} {a:?}", a, a = b`): the positional `a` is the field, only `{a}` is the alias
              \cup {p \in {<<u, v>> : u \in UseSet(n), v \in UseSet(n)} :
